@@ -157,13 +157,13 @@ def sz8 : Kind → Nat := fun _ => 8
 /-- a caller that follows the protocol over every object type -/
 def goodCalls : List Call :=
   [.objNew .action true, .filterNew 0 true, .bufNew [1, 2, 3] 10, .filterFeed 1 2 [4, 5], .filterClose 1 [6],
-   .headers 0 [(1, 2), (3, 0)], .objSer .action 0 5, .tpNew, .tpUse 7, .strFree 6, .hlistFree 5, .bufDrop 4, .bufDrop 3,
+   .headers 0 [(some 1, some 2), (some 3, none), (none, some 0)], .objSer .action 0 5, .tpNew, .tpUse 7, .strFree 6, .hlistFree 5, .bufDrop 4, .bufDrop 3,
    .objDrop .action 0]
 
 example : FollowsProtocol sz8 goodCalls := by decide
 example : (run sz8 {} goodCalls).heap.faults = [] := by decide
 /-- after everything releasable is released only the trusted-proxies pair is live -/
-example : (run sz8 {} goodCalls).heap.liveList = [(13, 8, .tconfig), (14, 8, .tproxies)] := by decide
+example : (run sz8 {} goodCalls).heap.liveList = [(14, 8, .tconfig), (15, 8, .tproxies)] := by decide
 
 /-- dropping an action twice: double free -/
 example : (run sz8 {} [.objNew .action true, .objDrop .action 0, .objDrop .action 0]).heap.faults = [.doubleFree 0] := by
